@@ -272,14 +272,17 @@ Definition empty_parsed : parsed :=
 
 Definition tn_insert (x : str) (l : list str) : list str := if mem_str x l then l else l ++ [x].
 
-(* ParsedData::push *)
+(* ParsedData::push (parser.rs:150). A struct, an enum and an alias insert their generated name into
+   type_names; a CONST does not (since the /repo fix of finding C14-glob-const: a constant is not a type, no
+   other file can refer to it in a type position, so it stays out of the table import statements are
+   generated from and out of the set of local type names of reconcile_referenced_types). *)
 Definition push (pd : parsed) (it : ritem) : parsed :=
   let names := tn_insert (renamed (item_id it)) (p_type_names pd) in
   match it with
   | ItStruct s => {| p_structs := p_structs pd ++ [s]; p_enums := p_enums pd; p_aliases := p_aliases pd; p_consts := p_consts pd; p_type_names := names; p_errors := p_errors pd; p_imports := p_imports pd |}
   | ItEnum e => {| p_structs := p_structs pd; p_enums := p_enums pd ++ [e]; p_aliases := p_aliases pd; p_consts := p_consts pd; p_type_names := names; p_errors := p_errors pd; p_imports := p_imports pd |}
   | ItAlias a => {| p_structs := p_structs pd; p_enums := p_enums pd; p_aliases := p_aliases pd ++ [a]; p_consts := p_consts pd; p_type_names := names; p_errors := p_errors pd; p_imports := p_imports pd |}
-  | ItConst c => {| p_structs := p_structs pd; p_enums := p_enums pd; p_aliases := p_aliases pd; p_consts := p_consts pd ++ [c]; p_type_names := names; p_errors := p_errors pd; p_imports := p_imports pd |}
+  | ItConst c => {| p_structs := p_structs pd; p_enums := p_enums pd; p_aliases := p_aliases pd; p_consts := p_consts pd ++ [c]; p_type_names := p_type_names pd; p_errors := p_errors pd; p_imports := p_imports pd |}
   end.
 
 (* collect_result: Err is recorded, a panic unwinds the worker *)
